@@ -130,7 +130,12 @@ func cmdCheck(args []string) int {
 	}
 	vd := verifDir()
 	if *noWrite {
-		tmp, _ := os.MkdirTemp("", "gokrb5lint-ev")
+		tmp, err := os.MkdirTemp("", "gokrb5lint-ev")
+		if err != nil || tmp == "" {
+			// never fall back to a relative path: the copy below would land on the real file
+			fmt.Fprintf(os.Stderr, "checker broken: cannot create a scratch directory for the evidence of a -noevidence run: %v\n", err)
+			return 2
+		}
 		defer os.RemoveAll(tmp)
 		// known findings still come from the real file
 		if b, err := os.ReadFile(filepath.Join(vd, "known_findings.json")); err == nil {
